@@ -692,6 +692,11 @@ Termination == <>(\A self \in ProcSet: pc[self] = "Done")
 
 \* ------------------------------------------------------------ schedules (M2)
 \* A thread that cannot take a step: finished, or parked in front of a held lock / an open channel.
+\* a schedule entry is 32 * thread + index of the label the thread was parked at (compact for TLC)
+Labels == <<"op", "xlock", "last_load", "last_cas", "win_load", "win_lock", "rb_done", "rb_copy", "rb_store",
+            "add_slot", "adv_done", "adv_last", "adv_win", "adv_slot", "adv_cas", "notify_lock",
+            "wait_fast", "wait_lock", "wait_park">>
+LabelIdx(l) == CHOOSE i \in 1..Len(Labels) : Labels[i] = l
 Blocked(t) == \/ pc[t] = "Done"
               \/ pc[t] \in {"win_lock", "notify_lock", "wait_lock"} /\ mu # 0
               \/ pc[t] = "xlock" /\ xl # 0
@@ -703,7 +708,7 @@ StepH(t) ==
     LET pre == IF lastT # 0 /\ lastT # t /\ ~Blocked(lastT) THEN 1 ELSE 0
     IN /\ preempt + pre <= MaxPreempt
        /\ thread(t)
-       /\ hist' = Append(hist, [t |-> t, at |-> pc[t]])
+       /\ hist' = Append(hist, 32 * t + LabelIdx(pc[t]))
        /\ lastT' = t
        /\ preempt' = preempt + pre
 NextH == \E t \in Threads : StepH(t)
@@ -753,6 +758,16 @@ ScenSerial2NoRebuild == WithW(ScenSerial2, 4)
 ScenSerial3NoRebuild == WithW(ScenSerial3, 4)
 ScenAll2 == ScenSerial2 \cup ScenFree2
 ScenAll3 == ScenSerial3 \cup ScenFree3
+\* smaller sets for the quick tier / for three threads
+ScenWitness2Quick == {
+  [w |-> 2, progs |-> << <<BN(1), DMine, BN(1), DMine>>, <<BN(1), DMine>> >>],
+  [w |-> 2, progs |-> << <<BN(1), DMine>>, <<BN(3), DMine>> >>],
+  [w |-> 2, progs |-> << <<B(1), D(1)>>, <<B(2), D(2)>> >>],
+  [w |-> 2, progs |-> << <<B(1), D(1)>>, <<B(3), D(3)>> >>] }
+ScenWitness3 == {
+  [w |-> 2, progs |-> << <<B(1), D(1)>>, <<B(2)>>, <<B(3)>> >>],
+  [w |-> 2, progs |-> << <<BN(1), DMine>>, <<BN(1)>>, <<BN(1)>> >>],
+  [w |-> 2, progs |-> << <<B(1)>>, <<B(3)>>, <<Wt(1), Wt(3)>> >>] }
 \* the smallest scenarios showing each recorded deviation (expected-red configurations)
 ScenLateBegin   == { [w |-> 4, progs |-> << <<B(1), D(1)>>, <<B(2), D(2)>> >>] }
 ScenWindowRace  == { [w |-> 2, progs |-> << <<BN(1), DMine, BN(1), DMine>>, <<BN(1), DMine>> >>] }
